@@ -12,6 +12,7 @@ def _c01():
         ("R-DISPATCH", "every command named by the property has a dispatcher arm that reaches the storage engine, with the effect class (read-only / mutating) and the storage primitive its reference semantics need",
          rules_cmd.make_dispatch_rule("C01")),
         ("R-BYTES-ENGINE", "every bytes-only argument (key, value, member, field, field map) the command layer hands to the storage engine carries the client's bytes: no lossy / UTF-8-only decoding, case mapping, cutting or sorting on its value flow inside the handler", rules_cmd.make_bytes_engine_rule("C01")),
+        ("R-KEYS-GLOB", "every element of a KEYS answer went through the glob matcher: the vector returned is filled only under pattern_matches (no answer built from the pattern itself)", rules_cmd.rule_keys_glob),
         ("R-ATOMIC", "no validation refusal is reachable after a dataset mutation (handlers: after the success continuation of a mutating engine call; engine methods: after a DATA-MUT site)",
          rules_cmd.rule_atomic("C01")),
         ("R-INT-CANON", "integers stored as text are read through the std i64 parser plus a round-trip (canonical form, whole i64 range); the INCR family takes the stored number from such a parser", rules_int.make_int_canon("C01")),
@@ -44,6 +45,7 @@ def _c04():
         ("R-NAN-FRONT", "each ZADD/ZINCRBY front end (direct handler, script-side parser) tests every score it parses for NaN itself, before the engine is called for the first pair", rules_zset.rule_nan_frontends),
         ("R-BOUNDS-USED", "an engine method taking the two score bounds answers from a call that received both (ZCOUNT = |ZRANGEBYSCORE| for infinite and reversed bounds too), with the empty answer, or behind exact tests of both bounds", rules_zset.rule_bounds_used),
         ("R-SCORE-EXTREMES", "no score-range call receives the finite extremes f64::MIN / f64::MAX as a bound (infinities are scores: `everything` is -inf..+inf or an unfiltered walk)", rules_zset.rule_score_extremes),
+        ("R-COUNT-STOP", "a range bound computed as `count - 1` is dominated by a comparison of the count with 0 or 1 (count 0 must not become stop -1 = `to the end`)", rules_cmd.rule_count_stop),
         ("R-RANGE-STOP", "index ranges: the stop index is never clamped from below (a stop below -len is the empty range) and a rank-range read is dominated by a start-versus-length test in both directions", rules_coll.rule_range_stop("C04")),
         ("R-SKIP-PAIR", "key index, node links and length stay in step: index insert -> node link, re-score unlinks before linking, index remove -> unlink, length written only by link/unlink", rules_zset.rule_skip_pair),
         ("R-EMPTY", "removing the last member removes the key", rules_cmd.rule_empty),
@@ -62,6 +64,7 @@ def _c05():
         ("R-PARSEERR", "a protocol error from parse_frame is queued/sent as an error reply on every path (no silent break)", rules_conn.rule_parseerr),
         ("R-READ-FEED", "once Connection::read has fed the parser in a call it returns `data available`: no error / `nothing read` exit is reachable after a feed (path-sensitive), so received commands are always parsed", rules_conn.rule_read_feed),
         ("R-SOCK-WRITE", "every write to the non-blocking client socket is a partial write of write_buffer[write_offset..] whose returned count is added to write_offset (no all-or-nothing write_all / write! that loses the progress of a partial write)", rules_conn.rule_sock_write),
+        ("R-BLK-TIMEOUT-REPLY", "the nil reply of the timeout pass is sent only under a still-Blocked test of the connection (one reply per timed-out command, however many keys it named)", rules_block.rule_timeout_reply),
         ("R-CODEC-INLINE", "an inline (non-RESP) form the incremental parser recognises by a fixed-length comparison has a prefix test answering `incomplete` for a partial arrival (chunking independence)", rules_conn.rule_codec_inline),
         ("R-PARSE-DRAIN", "the loop draining the parser ends only when parse_frame reports an incomplete buffer or an error (no frame budget that strands complete commands until the next read)", rules_conn.rule_parse_drain),
         ("R-CODEC-SHORTTEST", "a non-panicking content test on an open-ended sub-slice of the input whose negative outcome leads to a protocol error is dominated by a length test covering the bytes examined (no error decided from bytes that have not arrived)", rules_conn.rule_codec_shorttest),
@@ -101,6 +104,7 @@ def _c10():
         ("R-PANIC-FILE", "lengths and counts read from the file reach arithmetic/indexing only when bounded", rules_panic.make_taint_rule({"file"}, rules_panic.PANIC_KINDS, "file panic sinks")),
         ("R-ALLOC-FILE", "the loader never allocates according to a length field of the file without a bound", rules_panic.make_taint_rule({"file"}, ("alloc",), "file allocation sinks")),
         ("R-LOAD-ERR", "no read-primitive result is discarded in the loader; unknown opcodes are refused; storage results while loading are not dropped", rules_rdb.rule_load_err),
+        ("R-RDB-READEXACT", "the dump reader fills its buffers with read_exact: end of file is an error, never zero bytes (a plain Read::read whose count is not examined is a finding)", rules_rdb.rule_read_exact),
     ]
 
 
@@ -114,6 +118,7 @@ def _c11():
         ("R-AOF-FLUSH", "every path from the serialisation of the frame to a normal return of append_command passes a flush of the buffered writer", rules_aof.rule_flush_all_paths),
         ("R-AOF-FRAME", "append_command serialises exactly one Array frame of the command parts and flushes under every fsync policy", rules_aof.rule_frame),
         ("R-AOF-REOPEN", "a function that puts another file at the log path (a rewrite that can succeed) re-opens the writer before returning: the file appended to is the file at the log path", rules_aof.rule_reopen),
+        ("R-AOF-APPENDED-RUNS", "after the append hook no gate (bool test other than the command-name comparisons) refuses with an error reply built in process_normal_command without a handler having run: what is logged is dispatched", rules_aof.rule_appended_runs),
     ]
 
 
@@ -124,6 +129,7 @@ def _c12():
         ("R-PARITY", "every catalogue command dispatched by the server is implemented by the script-side executor with the same effect class and storage primitive", rules_lua.rule_parity),
         ("R-LUA-SHA", "EVALSHA executes the cached source unmodified through the EVAL entry with the caller's database", rules_lua.rule_sha),
         ("R-DB-HANDOVER", "every hand-over of a parsed command to the script-side executor carries the caller's database (db_override set to Some(non-constant), or a connection context on the receiver): a script command never falls back to database 0", rules_db.rule_db_handover),
+        ("R-COUNT-STOP", "a range bound computed as `count - 1` is dominated by a comparison of the count with 0 or 1 (count 0 must not become stop -1 = `to the end`)", rules_cmd.rule_count_stop),
         ("R-DB", "scripts act on the connection's database (see C18)", rules_db.rule_db),
         ("R-BIN", "KEYS/ARGV/arguments/replies cross the Lua boundary without lossy or UTF-8-only conversions", rules_lua.rule_bin_script),
         ("R-LUA-PCALL", "every error the shared redis.call/redis.pcall body can return to the VM is raised by the helper that branches on is_pcall (error-origin analysis)", rules_lua.rule_pcall),
@@ -144,6 +150,7 @@ def _c13():
         ("R-BLK-TIMEOUTS", "the timeout pass scans every registry on every call; it may skip the scan only under a cached deadline all of whose writes are derived from the blocked clients' deadlines (no reset that forgets later deadlines)", rules_block.rule_timeout_scan),
         ("R-BLK-FOREVER", "behind BLPOP/BRPOP every Duration built from the parsed timeout is reachable only through a non-zero test of that number (every spelling of zero means no deadline; path-sensitive)", rules_block.rule_forever),
         ("R-BLK-PIPELINE", "the loop executing the frames of one read stops (defers the rest) once a frame has left the connection blocked: nothing pipelined behind a blocking pop runs while the client is blocked", rules_block.rule_pipeline),
+        ("R-BLK-TIMEOUT-REPLY", "the nil reply of the timeout pass is sent only under a still-Blocked test of the connection (one reply per timed-out command, however many keys it named)", rules_block.rule_timeout_reply),
         ("R-BLK-EOF", "blocked connections are not excluded from reading (disconnect detection)", rules_block.rule_eof),
         ("R-BLK-UNREGALL", "unregistering a client removes every entry it has in a key's queue (retain, or a removal inside a loop that searches again)", rules_block.rule_unreg_all),
         ("R-BLK-FIFO", "a key's waiter queue is appended at the back, served from the front and otherwise edited only by order-preserving operations", rules_block.rule_fifo),
@@ -160,6 +167,7 @@ def _c14():
         ("R-DISC-SIB", "both connection-removal sites drop pub/sub, blocking and monitor registrations", rules_block.rule_disc_sib),
         ("R-PS-LABEL", "every pmessage frame is built inside the receiver loop from the current receiver's own pattern, not cached across receivers", rules_pubsub.rule_label),
         ("R-PS-BYTES", "channel / pattern / payload bytes reach the subscription manager and the message formatters unaltered (no lossy or UTF-8-only decoding, case mapping, cutting on the interprocedural value flow)", rules_pubsub.rule_bytes),
+        ("R-PS-ENTRYDROP", "a channel / pattern entry of the global maps is dropped only when its subscriber set is empty (retain closures answer `drop` only under is_empty(); removes happen under, or take keys collected under, that test)", rules_pubsub.rule_entrydrop),
         ("R-PS-RECORD", "a connection's subscription record is dropped only under `channels.is_empty() && patterns.is_empty()` (or after sweeping both global maps)", rules_pubsub.rule_record),
     ]
 
@@ -192,6 +200,7 @@ def _c16():
         ("R-CG-START", "the start position given at creation initialises the delivery cursor", rules_stream.rule_cg_start),
         ("R-ATOMIC", "group administration refused for a bad argument has no effect (no refusal after a mutation)", rules_cmd.rule_atomic("C16")),
         ("R-CG-ATOMIC", "refused group administration has no effect on the group objects: no Err result after a state mutation in storage::consumer_groups, no error reply after a state-mutating call in the handlers", rules_stream.rule_cg_atomic),
+        ("R-CG-SETID", "the position XGROUP SETID stores is the ID the client named: no min / max / clamp against the stream on its value flow", rules_stream.rule_cg_setid),
         ("R-CG-CURSOR-READ", "the delivery cursor is consulted only where entries are delivered or the cursor is administered: XACK / XCLAIM / XPENDING are decided by the pending list alone", rules_stream.rule_cg_cursor_readers),
         ("R-CG-IDLE", "idle times (claim thresholds, XPENDING idle column) are computed from last_delivery, never from delivered_at", rules_stream.rule_cg_idle),
         ("R-SORTED-SEARCH", "a sequence that some function looks up by binary search is kept sorted by every function that grows it (order test of the element, insert at the searched position, or a sort on every path)", rules_order.rule_sorted_search(("storage::stream::", "storage::consumer_groups::"))),
@@ -274,6 +283,7 @@ def _c03():
         ("R-REMOVE-ITER", "a loop that removes at an ascending index does not advance the index in the iteration that removed (adjacent matches would be skipped: LREM)", rules_coll.rule_remove_iter),
         ("R-IDX-SINGLE", "behind LINDEX / LSET the index of the element access has no clamping / wrapping step on its value flow unless a comparison of the index against the length dominates the access (out-of-range is refused, not moved to the nearest element)", rules_coll.rule_idx_single),
         ("R-RANGE-STOP", "index ranges: the stop index is never clamped from below (a stop below -len is the empty range) and a rank-range read is dominated by a start-versus-length test in both directions", rules_coll.rule_range_stop("C03")),
+        ("R-HASH-LASTWINS", "HSET / HMSET overwrite an occupied field entry too (no vacant-only insertion through the entry API: the last value named for a field wins)", rules_coll.rule_hash_lastwins),
     ]
 
 
